@@ -83,7 +83,7 @@ def run(ctx):
     core.import_repo()
     drv = core.Driver()
     try:
-        n = 700 if ctx.tier == "quick" else 12000
+        n = 700 if ctx.tier == "quick" else 100000
         n_dis = streams(ctx, drv, n, None)
         n_dis += literal_stream(ctx, drv)
         parse_stream(ctx, drv)
